@@ -97,6 +97,19 @@ func (x *Exec) builtin(st *State, fr *Frame, dst ssa.Value, b *ssa.Builtin, args
 					if ns := namedStruct(pointee(fa.X.Type())); ns != nil {
 						if bv, ok := fr.Regs[fa.X]; ok && bv.Term != nil {
 							x.checkStrong(st, ns, bv.Term, "close:"+ap, pos)
+							// closing the channel of a guarded field counts as a write of that field
+							fname := ns.Underlying().(*types.Struct).Field(fa.Field).Name()
+							x.guardCheck(st, &FieldPtr{Base: bv.Term, Root: ns, Path: []string{fname}, T: args[0].T}, true, pos)
+							if tc := x.V.C.Types[typeName(ns)]; tc != nil && tc.ChanUnder[fname] != "" && !st.FreshRefs[bv.Term.Op] {
+								cls := tc.ChanUnder[fname]
+								kk := x.site(st, "closeunder:"+fname)
+								name := fmt.Sprintf("guarded:close-of-%s-under-%s#%d", fname, cls, kk)
+								if x.holdsLockClass(st, cls, true) {
+									x.oblige(st, "guarded", name, True, pos, "")
+								} else {
+									x.failHard(st, "guarded", name, pos, "close of "+typeName(ns)+"."+fname+" without holding a lock of class "+cls)
+								}
+							}
 						}
 					}
 				}
@@ -184,6 +197,66 @@ func (x *Exec) model(st *State, fr *Frame, dst ssa.Value, callee *ssa.Function, 
 		return x.jsonMarshal(st, fr, dst, args, pos)
 	case "encoding/json.Unmarshal":
 		return x.jsonUnmarshal(st, fr, dst, args, pos)
+	case "(*sync.Map).LoadOrStore", "(*sync.Map).Load":
+		// sync.Map as a ghost table per map object; entries are only ever added (checked by syncMapSweep), so the
+		// table grows monotonically under interference and an entry, once present, keeps its value
+		x.V.syncMapSweep()
+		x.note("ASSUMED model of sync.Map: Load/LoadOrStore are single atomic steps; entries are never removed or overwritten (no other sync.Map method is called in the packages under contract: checked)")
+		x.nilCheck(st, args[0], "syncmap-receiver", pos)
+		r := x.refOf(args[0])
+		hs, vs := ArrSort(SInt, ArrSort(SInt, SBool)), ArrSort(SInt, ArrSort(SInt, SInt))
+		has, val := st.heapGet("G$smhas", hs), st.heapGet("G$smval", vs)
+		shared := true
+		if args[0].FP != nil && st.FreshRefs[args[0].FP.Base.Op] {
+			shared = false
+		}
+		if shared {
+			nhas, nval := Fresh("if$G$smhas", hs), Fresh("if$G$smval", vs)
+			m, kk := BoundVar("m", SInt), BoundVar("k", SInt)
+			st.Assume(Forall([]*Term{m, kk}, Implies(Select(Select(has, m), kk), And(Select(Select(nhas, m), kk), Eq(Select(Select(nval, m), kk), Select(Select(val, m), kk))))))
+			has, val = nhas, nval
+		}
+		// declared value type of this map (type contract: syncmap FIELD TYPE)
+		var vt types.Type
+		if fp := args[0].FP; fp != nil {
+			if tc := x.V.C.Types[typeName(fp.Root)]; tc != nil && tc.SyncMaps[fp.Path[0]] != "" {
+				env := &Env{V: x.V, X: x, St: st, Vars: map[string]*Val{}, Pkg: x.V.P.TPkgs[tc.Pkg]}
+				vt = x.V.resolveType(env, tc.SyncMaps[fp.Path[0]])
+			}
+		}
+		valueOK := func(t *Term) *Term {
+			c := And(Neq(t, IntLit(0)), Eq(dynType(t), typeID(vt)))
+			if _, isPtr := vt.Underlying().(*types.Pointer); isPtr {
+				c = And(c, Gt(UF("unbox$"+typeName(vt)+"$", SInt, t), IntLit(0)))
+			}
+			return c
+		}
+		if vt != nil {
+			kk := BoundVar("k", SInt)
+			st.Assume(Forall([]*Term{kk}, Implies(Select(Select(has, r), kk), valueOK(Select(Select(val, r), kk)))))
+		}
+		key := args[1].Term
+		present := Select(Select(has, r), key)
+		cur := Select(Select(val, r), key)
+		if full == "(*sync.Map).Load" {
+			st.Heap["G$smhas"], st.Heap["G$smval"] = has, val
+			if dst != nil {
+				fr.Regs[dst] = &Val{T: dst.Type(), Fields: []*Val{{T: callee.Signature.Results().At(0).Type(), Term: Ite(present, cur, IntLit(0))}, boolVal(present)}}
+			}
+			return true
+		}
+		stored := args[2].Term
+		if vt != nil {
+			k := x.site(st, "syncmap:"+x.argPath(fr, 0))
+			x.oblige(st, "inv", fmt.Sprintf("syncmap:value-is-a-non-nil-%s@%s#%d", sanitize(typeName(vt)), x.argPath(fr, 0), k), valueOK(stored), pos, "")
+		}
+		actual := Ite(present, cur, stored)
+		st.Heap["G$smhas"] = Store(has, r, Store(Select(has, r), key, True))
+		st.Heap["G$smval"] = Store(val, r, Store(Select(val, r), key, actual))
+		if dst != nil {
+			fr.Regs[dst] = &Val{T: dst.Type(), Fields: []*Val{{T: callee.Signature.Results().At(0).Type(), Term: actual}, boolVal(present)}}
+		}
+		return true
 	case "context.WithCancel", "context.WithTimeout", "context.WithDeadline":
 		// fresh child context; the returned cancel function cancels exactly it (ASSUMED model of package context)
 		x.note("ASSUMED model of context." + callee.Name() + ": fresh child context inheriting the parent's values; the returned function cancels that child; a child of a cancelled parent is cancelled")
@@ -237,6 +310,13 @@ func (x *Exec) callCancel(st *State, fv *Val) bool {
 }
 
 func (x *Exec) argPath(fr *Frame, i int) string {
+	if x.curDefer != nil {
+		// a deferred call being run: name its arguments as written at the defer statement
+		if i < len(x.curDefer.Call.Args) {
+			return lockPath(x.curDefer.Call.Args[i])
+		}
+		return ""
+	}
 	switch c := currentCall(fr).(type) {
 	case *ssa.Call:
 		if i < len(c.Call.Args) {
@@ -339,10 +419,32 @@ func (x *Exec) lock(st *State, fr *Frame, lockv *Val, read bool, pos token.Pos) 
 			}
 			st.Assume(x.V.evalBool(env, inv.E))
 		}
+		for _, inv := range tc.RestInvs {
+			if invMon(inv) != "" && invMon(inv) != mon.Lock {
+				continue
+			}
+			st.Assume(x.V.evalBool(env, inv.E))
+		}
 		x.V.lockSnap[id] = copyHeap(st.Heap)
 		st.LockSnaps = append(st.LockSnaps, lockSnap{id, copyHeap(st.Heap), st.Epoch})
 	}
 	st.Trace = append(st.Trace, "lock "+ap)
+}
+
+// checkHeldInvariants: a function whose contract says it is entered with a lock held assumes the monitor's
+// (non-rest) invariants at entry; whoever calls it or hands the lock over must establish them.
+func (x *Exec) checkHeldInvariants(st *State, h *Held, site string, pos token.Pos) {
+	if h == nil || h.TC == nil || h.Mon == nil || h.Base == nil {
+		return
+	}
+	env := &Env{V: x.V, X: x, St: st, Vars: map[string]*Val{}, Pkg: x.V.P.TPkgs[h.TC.Pkg], Epoch: st.Epoch}
+	env.Vars[h.TC.Self] = &Val{T: types.NewPointer(h.Root), Term: h.Base}
+	for _, inv := range h.TC.Invariants {
+		if invMon(inv) != "" && invMon(inv) != h.Mon.Lock {
+			continue
+		}
+		x.oblige(st, "monitor", fmt.Sprintf("monitor:%s:inv:%s@%s", h.Mon.Lock, inv.Label, site), x.V.evalBool(env, inv.E), pos, inv.Text)
+	}
 }
 
 // invMon: invariants may be tagged "[mon:LOCK:label]" to bind them to one monitor of the type.
@@ -386,6 +488,13 @@ func (x *Exec) unlock(st *State, fr *Frame, lockv *Val, read bool, pos token.Pos
 			g := x.V.evalBool(env, inv.E)
 			x.oblige(st, "monitor", fmt.Sprintf("monitor:%s:inv:%s@unlock#%d", h.Mon.Lock, inv.Label, k), g, pos, inv.Text)
 		}
+		for _, inv := range h.TC.RestInvs {
+			if invMon(inv) != "" && invMon(inv) != h.Mon.Lock {
+				continue
+			}
+			g := x.V.evalBool(env, inv.E)
+			x.oblige(st, "monitor", fmt.Sprintf("monitor:%s:inv:%s@unlock#%d", h.Mon.Lock, inv.Label, k), g, pos, inv.Text)
+		}
 		// guarantee: the change made inside the critical section respects the rely
 		for i := len(st.LockSnaps) - 1; i >= 0; i-- {
 			if st.LockSnaps[i].ID == id {
@@ -410,29 +519,69 @@ func (x *Exec) guardCheck(st *State, fp *FieldPtr, write bool, pos token.Pos) {
 		return
 	}
 	f := fp.Path[0]
+	var mons []*Monitor
 	for _, m := range tc.Monitors {
-		if !m.Guards[f] {
-			continue
+		if m.Guards[f] {
+			mons = append(mons, m)
 		}
-		if !write && m.WriteOnly[f] {
-			continue
+	}
+	if len(mons) == 0 || st.FreshRefs[fp.Base.Op] {
+		return // unguarded, or object not yet shared
+	}
+	kind := "read"
+	if write {
+		kind = "write"
+	}
+	// mode in which monitor m of the object is held: 0 not, 1 read, 2 write
+	mode := func(m *Monitor) int {
+		md := 0
+		for _, h := range st.Held {
+			if h.Mon == m && h.Base != nil && same(h.Base, fp.Base) {
+				if h.Read && md < 1 {
+					md = 1
+				}
+				if !h.Read {
+					md = 2
+				}
+			}
 		}
-		if st.FreshRefs[fp.Base.Op] {
-			continue // object not yet shared
+		if md == 0 && x.V.entryHolds(tc, m, fp.Base) {
+			md = 2
+		}
+		return md
+	}
+	if len(mons) > 1 && !write {
+		// a field in the lockset of several monitors: writers hold all of them, so a reader needs any one of them in a
+		// mode that excludes the writers (write mode, or read mode when writers take that lock in write mode)
+		if x.quiescentField(st, fp) {
+			return
 		}
 		ok := false
-		for _, h := range st.Held {
-			if h.Mon == m && h.Base != nil && same(h.Base, fp.Base) && (!write || !h.Read) {
+		var names []string
+		for _, m := range mons {
+			names = append(names, m.Lock)
+			if md := mode(m); md == 2 || (md == 1 && !m.RWrite[f]) {
 				ok = true
 			}
 		}
-		if !ok && x.V.entryHolds(tc, m, fp.Base) {
-			ok = true
+		k := x.site(st, "guard:"+f+":"+kind)
+		name := fmt.Sprintf("guarded:%s:read-under-%s#%d", f, strings.Join(names, "-or-"), k)
+		if ok {
+			x.oblige(st, "guarded", name, True, pos, "")
+		} else {
+			x.failHard(st, "guarded", name, pos, fmt.Sprintf("read of %s.%s holding none of %s in an excluding mode", tc.Name, f, strings.Join(names, ", ")))
 		}
-		kind := "read"
-		if write {
-			kind = "write"
+		return
+	}
+	for _, m := range mons {
+		if !write && m.WriteOnly[f] {
+			continue
 		}
+		if !write && x.quiescentField(st, fp) {
+			continue
+		}
+		md := mode(m)
+		ok := md == 2 || (md == 1 && (!write || m.RWrite[f]))
 		k := x.site(st, "guard:"+f+":"+kind)
 		name := fmt.Sprintf("guarded:%s:%s-under-%s#%d", f, kind, m.Lock, k)
 		if ok {
@@ -441,6 +590,67 @@ func (x *Exec) guardCheck(st *State, fp *FieldPtr, write bool, pos token.Pos) {
 			x.failHard(st, "guarded", name, pos, fmt.Sprintf("%s of %s.%s without holding %s", kind, tc.Name, f, m.Lock))
 		}
 	}
+	if write && len(mons) > 1 {
+		// concurrent writers must be serialised by at least one lock held in write mode
+		excl := false
+		for _, m := range mons {
+			if mode(m) == 2 {
+				excl = true
+			}
+		}
+		k := x.site(st, "guard:"+f+":write-excl")
+		name := fmt.Sprintf("guarded:%s:write-serialised#%d", f, k)
+		if excl {
+			x.oblige(st, "guarded", name, True, pos, "")
+		} else {
+			x.failHard(st, "guarded", name, pos, fmt.Sprintf("write of %s.%s holding no lock of its lockset in write mode", tc.Name, f))
+		}
+	}
+}
+
+// quiescentField: the function contract says (ghost quiescent X.f [why]) that no other goroutine writes X.f while
+// it runs; reads of it are then not lockset-checked and its value is kept across interference (ASSUMED, recorded).
+func (x *Exec) quiescentField(st *State, fp *FieldPtr) bool {
+	for _, q := range x.quiescent(st) {
+		if q.Field == fp.Path[0] && same(q.Base, fp.Base) {
+			return true
+		}
+	}
+	return false
+}
+
+type quiescentDecl struct {
+	Base  *Term
+	Root  *types.Named
+	Field string
+}
+
+func (x *Exec) quiescent(st *State) []quiescentDecl {
+	var out []quiescentDecl
+	if x.FC == nil || len(st.Frames) == 0 {
+		return nil
+	}
+	for _, cl := range x.FC.Of("ghost") {
+		if !strings.HasPrefix(cl.Text, "quiescent ") {
+			continue
+		}
+		e, err := ParseExpr(strings.TrimPrefix(cl.Text, "quiescent "))
+		if err != nil || e.Kind != "sel" {
+			unsupportedf("ghost quiescent expects X.field")
+		}
+		env := x.envAt(st, st.Frames[0])
+		for n, p := range x.Entry.Params {
+			env.Vars[n] = p
+		}
+		ov := x.V.eval(env, e.Args[0])
+		ns := namedStruct(pointee(ov.T))
+		if ns == nil || ov.Term == nil {
+			continue
+		}
+		x.note("ASSUMED: no other goroutine writes " + cl.Text[10:] + " while " + x.V.P.FuncKey(x.Fn) + " runs (" + cl.Label + ")")
+		out = append(out, quiescentDecl{ov.Term, ns, e.Op})
+	}
+	return out
 }
 
 // ---- interference ----
@@ -452,6 +662,7 @@ func (x *Exec) interfere(st *State, why string) {
 	before := copyHeap(st.Heap)
 	beforeEpoch := st.Epoch
 	changed := false
+	quiescent := x.quiescent(st)
 	var tcs []string
 	for k := range x.V.C.Types {
 		tcs = append(tcs, k)
@@ -472,24 +683,54 @@ func (x *Exec) interfere(st *State, why string) {
 				fields = append(fields, f)
 			}
 			sort.Strings(fields)
-			var keep []*Term
+			var keep0, keepW []*Term // objects whose monitor m is held (any mode / write mode)
 			for _, h := range st.Held {
 				if h.Mon == m && h.Base != nil {
-					keep = append(keep, h.Base)
+					keep0 = append(keep0, h.Base)
+					if !h.Read {
+						keepW = append(keepW, h.Base)
+					}
 				}
 			}
 			for _, b := range x.V.entryBases(tc, m) {
-				keep = append(keep, b)
-			}
-			for _, fr := range st.FreshList {
-				keep = append(keep, fr)
+				keep0 = append(keep0, b)
+				keepW = append(keepW, b)
 			}
 			for _, f := range fields {
+				if m.CloseOnly[f] {
+					continue // the field itself is never reassigned (stores to it on a shared object are rejected)
+				}
+				// a field is stable at an object while a lock of its lockset is held in a mode that excludes its writers
+				keep := keep0
+				if m.RWrite[f] {
+					keep = keepW
+				}
+				keep = append([]*Term{}, keep...)
+				for _, m2 := range tc.Monitors {
+					if m2 == m || !m2.Guards[f] {
+						continue
+					}
+					for _, h := range st.Held {
+						if h.Mon == m2 && h.Base != nil && (!h.Read || !m2.RWrite[f]) {
+							keep = append(keep, h.Base)
+						}
+					}
+					keep = append(keep, x.V.entryBases(tc, m2)...)
+				}
+				for _, q := range quiescent {
+					if q.Field == f && typeName(q.Root) == tk {
+						keep = append(keep, q.Base)
+					}
+				}
+				for _, fr := range st.FreshList {
+					keep = append(keep, fr)
+				}
 				if strings.HasPrefix(f, "#") {
 					// ghost field guarded by the monitor
 					key := heapKeyField(root, f)
-					cur := st.heapGet(key, ArrSort(SInt, SInt))
-					nw := Fresh("if$"+key, ArrSort(SInt, SInt))
+					gsrt, _ := x.V.ghostFieldSort(root, strings.TrimPrefix(f, "#"))
+					cur := st.heapGet(key, ArrSort(SInt, gsrt))
+					nw := Fresh("if$"+key, ArrSort(SInt, gsrt))
 					for _, b := range keep {
 						nw = Store(nw, b, Select(cur, b))
 					}
@@ -563,6 +804,21 @@ func (x *Exec) interfere(st *State, why string) {
 			continue
 		}
 		for _, f := range tc.OwnsChan {
+			// a channel field declared to be closed only under locks of a class (ownschan f(Type.lock)): while this
+			// thread holds a lock of that class nobody else closes these channels (every close site proves it holds one)
+			cls := tc.ChanUnder[f]
+			if cls == "" || !x.holdsLockClass(st, cls, false) {
+				continue
+			}
+			x.V.sweep()
+			// every close site of the field inside the module must be a function under contract (it then carries the
+			// close-under-lock obligation); closes by code outside the module are excluded by the ownschan assumption
+			for _, fk := range x.V.closeFields[tk+"."+f] {
+				if !x.V.underContract(fk) {
+					unsupportedf("ownschan %s.%s(%s): closed in %s, which is not under contract", tk, f, cls, fk)
+				}
+			}
+			x.note("ASSUMED: an object whose " + f + " channel is closed under locks of class " + cls + " is protected by a single lock of that class (the one held)")
 			key := heapKeyField(root, f)
 			fh := st.heapGet(key, ArrSort(SInt, SInt))
 			o := BoundVar("o", SInt)
@@ -624,6 +880,21 @@ func (x *Exec) interfere(st *State, why string) {
 	}
 	st.Trace = append(st.Trace, "interference@"+why)
 	x.assumeStrong(st)
+}
+
+// holdsLockClass: the thread holds a lock that is monitor "pkg.Type.lockfield" of some object (in write mode if asked).
+func (x *Exec) holdsLockClass(st *State, cls string, write bool) bool {
+	for _, h := range st.Held {
+		if h.TC != nil && h.Mon != nil && h.TC.Pkg+"."+h.TC.Name+"."+h.Mon.Lock == cls && (!write || !h.Read) {
+			return true
+		}
+	}
+	for _, h := range x.V.entryHeldList {
+		if h.TC != nil && h.Mon != nil && h.TC.Pkg+"."+h.TC.Name+"."+h.Mon.Lock == cls {
+			return true
+		}
+	}
+	return false
 }
 
 // ownedChans: channels stored in chan-typed guarded fields of objects whose monitor is held, plus fresh channels.
@@ -701,6 +972,7 @@ func (x *Exec) recv(st *State, fr *Frame, i *ssa.UnOp, ch *Val) {
 	}
 	if !noSend {
 		vs := x.fork(st)
+		vs.Assume(Not(vs.closeOnly(ch.Term))) // a value arrives only on a channel somebody sends on
 		v := freshVal(et, "recv$"+sanitize(ap))
 		vs.assumeValAllocated(v)
 		if x.recvNonNil(ap) && v.Term != nil {
@@ -771,11 +1043,22 @@ func (x *Exec) send(st *State, fr *Frame, i *ssa.Send) {
 	}
 	x.oblige(st, "nopanic", fmt.Sprintf("nopanic:send-on-closed@%s#%d", ap, k), Not(st.closed(ch.Term)), i.Pos(), "")
 	st.Assume(Not(st.closed(ch.Term)))
+	x.closeOnlyCheck(st, ap, ch.Term, k, i.Pos())
 	x.logSend(st, ap, v)
 	// whatever was sent (and what it reaches) is shared from now on
+	x.checkObjInvsOnShare(st, "send:"+ap, i.Pos())
 	st.FreshRefs = map[string]bool{}
 	st.FreshList = nil
 	st.Trace = append(st.Trace, "send "+ap)
+}
+
+// closeOnlyCheck: channels marked close-only (ghost closeonly NAME at their make) are never sent on. The obligation
+// is generated at every send of a package whose contracts use the notion.
+func (x *Exec) closeOnlyCheck(st *State, ap string, ch *Term, k int, pos token.Pos) {
+	if !x.V.C.UsesCloseOnly[x.Fn.Pkg.Pkg.Name()] {
+		return
+	}
+	x.oblige(st, "assert", fmt.Sprintf("closeonly:no-send-on-a-close-only-channel@%s#%d", ap, k), Not(st.closeOnly(ch)), pos, "")
 }
 
 func (x *Exec) logSend(st *State, ap string, v *Val) {
@@ -863,6 +1146,7 @@ func (x *Exec) selectStmt(st *State, fr *Frame, i *ssa.Select) {
 			if !x.V.noSendChan(x, ap) && ap != "ctxdone" {
 				s1 := st.Clone()
 				s1.Assume(Neq(ch.Term, IntLit(0)))
+				s1.Assume(Not(s1.closeOnly(ch.Term)))
 				v := freshVal(et, "recv$"+sanitize(ap))
 				s1.assumeValAllocated(v)
 				x.logRecv(s1, ap, v)
@@ -897,9 +1181,11 @@ func (x *Exec) selectStmt(st *State, fr *Frame, i *ssa.Select) {
 			}
 			x.oblige(s1, "nopanic", fmt.Sprintf("nopanic:send-on-closed@%s#%d", ap, kk), Not(s1.closed(ch.Term)), i.Pos(), "")
 			s1.Assume(Not(s1.closed(ch.Term)))
+			x.closeOnlyCheck(s1, ap, ch.Term, kk, i.Pos())
 			sv := x.val(s1, s1.Top(), c.Send)
 			x.siteAsserts(s1, s1.Top(), "send:"+ap, i.Pos())
 			x.logSend(s1, ap, sv)
+			x.checkObjInvsOnShare(s1, "send:"+ap, i.Pos())
 			s1.FreshRefs = map[string]bool{}
 			s1.FreshList = nil
 			s1.Trace = append(s1.Trace, fmt.Sprintf("select#%d: send %s", k, ap))
@@ -1005,8 +1291,9 @@ func (x *Exec) goStmt(st *State, fr *Frame, i *ssa.Go) {
 					}
 					lv := x.V.evalLockRef(env, x, st, e)
 					id := x.refOf(lv).String()
-					if _, ok := st.Held[id]; ok {
+					if hh, ok := st.Held[id]; ok {
 						x.oblige(st, "pre", fmt.Sprintf("pre:lock-handed-over@go:%s#%d", name, k), True, i.Pos(), cl.Text)
+						x.checkHeldInvariants(st, hh, fmt.Sprintf("go:%s#%d", name, k), i.Pos())
 						delete(st.Held, id)
 					} else {
 						x.failHard(st, "pre", fmt.Sprintf("pre:lock-handed-over@go:%s#%d", name, k), i.Pos(), "the goroutine's contract says it holds "+cl.Text+" at entry, but the spawning thread does not hold it")
@@ -1024,10 +1311,35 @@ func (x *Exec) goStmt(st *State, fr *Frame, i *ssa.Go) {
 			fam := fmt.Sprintf("G$spawnarg$%s$%d", name, ai)
 			arr := st.heapGet(fam, ArrSort(SInt, ts[0].Sort))
 			st.Heap[fam] = Store(arr, n, ts[0])
+		} else if len(ts) == 2 && a.T != nil && shapeOf(a.T) == shSlice {
+			for k, suf := range []string{"base", "len"} {
+				fam := fmt.Sprintf("G$spawnarg$%s$%d$%s", name, ai, suf)
+				arr := st.heapGet(fam, ArrSort(SInt, SInt))
+				st.Heap[fam] = Store(arr, n, ts[k])
+			}
+		}
+	}
+	if callee != nil {
+		for bi, b := range freeVars {
+			if b == nil || b.Cell == nil || bi >= len(callee.FreeVars) {
+				continue
+			}
+			cv := st.Cells[b.Cell]
+			if cv == nil {
+				continue
+			}
+			var ts []*Term
+			flatten(x.toHeapVal(st, cv, nil), &ts)
+			if len(ts) == 1 {
+				fam := fmt.Sprintf("G$spawnfv$%s$%s", name, callee.FreeVars[bi].Name())
+				arr := st.heapGet(fam, ArrSort(SInt, ts[0].Sort))
+				st.Heap[fam] = Store(arr, n, ts[0])
+			}
 		}
 	}
 	st.setGhost("spawned$"+name, Add(n, IntLit(1)))
 	// objects reachable by the new thread are no longer thread-local
+	x.checkObjInvsOnShare(st, "go:"+name, i.Pos())
 	st.FreshRefs = map[string]bool{}
 	st.FreshList = nil
 	st.Trace = append(st.Trace, "go "+name)
@@ -1275,6 +1587,70 @@ func (x *Exec) checkStrong(st *State, root *types.Named, base *Term, site string
 	for _, inv := range tc.Strong {
 		x.oblige(st, "monitor", fmt.Sprintf("monitor:strong:%s@%s#%d", inv.Label, site, k), x.V.evalBool(env, inv.E), pos, inv.Text)
 	}
+}
+
+// ---- object invariants (type clause object-invariant) ----
+
+// assumeObjInvs: a shared (not thread-local) non-nil object of a type with object invariants satisfies them.
+func (x *Exec) assumeObjInvs(st *State, v *Val) {
+	if x.inObjInv || v.Term == nil || pointee(v.T) == nil || st.FreshRefs[v.Term.Op] {
+		return
+	}
+	ns := namedStruct(pointee(v.T))
+	if ns == nil {
+		return
+	}
+	tc := x.V.C.Types[typeName(ns)]
+	if tc == nil || len(tc.ObjInvs) == 0 {
+		return
+	}
+	x.inObjInv = true
+	defer func() { x.inObjInv = false }()
+	env := &Env{V: x.V, X: x, St: st, Vars: map[string]*Val{}, Pkg: x.V.P.TPkgs[tc.Pkg], Epoch: st.Epoch}
+	env.Vars[tc.Self] = &Val{T: types.NewPointer(ns), Term: v.Term}
+	for _, inv := range tc.ObjInvs {
+		st.Assume(Implies(Neq(v.Term, IntLit(0)), x.V.evalBool(env, inv.E)))
+	}
+}
+
+// checkObjInvsOnShare: objects that stop being thread-local here must satisfy their object invariants.
+func (x *Exec) checkObjInvsOnShare(st *State, why string, pos token.Pos) {
+	for _, r := range st.FreshList {
+		ns := st.FreshTypes[r.Op]
+		if ns == nil || !st.FreshRefs[r.Op] {
+			continue
+		}
+		x.checkObjInvs(st, ns, r, "share:"+why, pos)
+	}
+}
+
+func (x *Exec) checkObjInvs(st *State, ns *types.Named, base *Term, site string, pos token.Pos) {
+	tc := x.V.C.Types[typeName(ns)]
+	if tc == nil || len(tc.ObjInvs) == 0 {
+		return
+	}
+	x.inObjInv = true
+	defer func() { x.inObjInv = false }()
+	env := &Env{V: x.V, X: x, St: st, Vars: map[string]*Val{}, Pkg: x.V.P.TPkgs[tc.Pkg], Epoch: st.Epoch}
+	env.Vars[tc.Self] = &Val{T: types.NewPointer(ns), Term: base}
+	k := x.site(st, "objinv:"+site)
+	for _, inv := range tc.ObjInvs {
+		x.oblige(st, "inv", fmt.Sprintf("object-invariant:%s@%s#%d", inv.Label, site, k), x.V.evalBool(env, inv.E), pos, inv.Text)
+	}
+}
+
+// objInvMentions: the object invariants of the type mention the field (syntactically: SELF.field).
+func (x *Exec) objInvMentions(ns *types.Named, field string) bool {
+	tc := x.V.C.Types[typeName(ns)]
+	if tc == nil {
+		return false
+	}
+	for _, inv := range tc.ObjInvs {
+		if strings.Contains(inv.Text, tc.Self+"."+field) {
+			return true
+		}
+	}
+	return false
 }
 
 // assumeStrong: assume the strong invariants of the objects named by `ghost strong EXPR` clauses.
